@@ -560,7 +560,7 @@ def last_index(res_output, tr, var_tr="tr", var_i="i"):
 
 def flow(ck, *, mcs, sub, trace_module, trace_cfg, trace_file, var="tr", key_of=None,
          describe=None, nontrivial=None, distinct_key=None, selftest=None, drive_args=None,
-         replay_rows=None, mc_module=None, workers=8, drive_timeout=1800, tlc_timeout=1800):
+         replay_rows=None, mc_module=None, workers=8, drive_timeout=7200, tlc_timeout=5400):
     """The common shape of a check:
        A  run each exhaustive config in `mcs` [(module, cfg, kwargs)] — must pass (spec-level);
        C  run harness sub-command `sub` on the real code -> ndjson; TLC validates every line
